@@ -12,6 +12,7 @@ import itertools
 import os
 import re
 import sys
+import time
 from concurrent.futures import ThreadPoolExecutor
 
 import vlib
@@ -53,6 +54,11 @@ def oracle_seq(case):
         for op in t[3:]:
             if op[0] == "a":
                 queued, new = int(op[1:]), True; outs.append("ok")
+            elif op[0] == "A":
+                n_, st = op[1:].split(":")
+                if int(n_) > 0:
+                    queued, new = int(st) + int(n_) - 1, True
+                outs.append("ok")
             elif op == "u":
                 if new:
                     cur, queued, new = queued, None, False; outs.append("true")
@@ -141,8 +147,13 @@ def run(ctx):
         only_a = sorted(set(map(key, rows)) - set(map(key, rows_txt)))
         only_t = sorted(set(map(key, rows_txt)) - set(map(key, rows)))
         ctx.broken.append("lock table: clang-AST and textual extractors disagree; only AST: %s; only textual: %s" % (only_a[:4], only_t[:4]))
-    rows = sorted(rows, key=lambda r: (r["file"], r["line"], r["field"], r["method"]))
-    txt = lockgen.to_coq(rows, ctx.repo).replace("GENERATED by props/C12/lockgen.py", "GENERATED by props/C12/lockgen_ast.py (clang JSON AST)")
+    iface = [tuple(t) for t in info_ast.get("interface", [])]
+    txt = lockgen_ast.coq_text(rows, iface, ctx.repo)
+    # the member list the models cover: Model.v expected_members (single source; parsed only to word the finding)
+    expected = [tuple(m) for m in re.findall(r'mkm "([^"]*)" "([^"]*)" "([^"]*)" "([^"]*)"', open(os.path.join(ctx.coqdir, "Model.v")).read())]
+    iface_added = [t for t in iface if t not in expected]
+    iface_removed = [t for t in expected if t not in iface]
+    ctx.cov["interface"] = {"members": len(iface), "added": iface_added, "removed": iface_removed}
     os.makedirs(os.path.dirname(gen_v), exist_ok=True)
     changed = (not os.path.exists(gen_v)) or open(gen_v).read() != txt
     if changed:
@@ -177,6 +188,10 @@ def run(ctx):
                                                 " (atomic)" if r["atomic"] else "", "holding " + r["lock"] if r["lock"] else "no lock held")
 
     lock_findings = []
+    for t in iface_added:
+        lock_findings.append("obligation interface_closed: declaration not covered by the models: %s::%s %s '%s'" % (t[0], t[2], t[1], t[3]))
+    for t in iface_removed:
+        lock_findings.append("obligation interface_closed: modelled declaration no longer present: %s::%s %s '%s'" % (t[0], t[2], t[1], t[3]))
     for a, b in conflicts:
         lock_findings.append("unprotected conflicting accesses: %s  <->  %s" % (fmt(a), fmt(b)))
     for u in unknown:
@@ -189,13 +204,14 @@ def run(ctx):
 
     # ------------------------------------------------------------------------------- (2) Coq
     res = ctx.coq_check(PROP_FILES)
-    coq_lock_ok = all(res.get(n) for n in ("lockset_race_free", "tbuf_methods_atomic", "tval_granularity"))
-    if coq_lock_ok != (py_lockset_ok and py_gran_ok):
-        ctx.broken.append("lockset verdicts differ: Coq reflective check %s, python re-evaluation %s" % (coq_lock_ok, py_lockset_ok and py_gran_ok))
+    coq_lock_ok = all(res.get(n) for n in ("lockset_race_free", "tbuf_methods_atomic", "tval_granularity", "interface_closed"))
+    py_iface_ok = iface == expected
+    if coq_lock_ok != (py_lockset_ok and py_gran_ok and py_iface_ok):
+        ctx.broken.append("lockset/interface verdicts differ: Coq reflective check %s, python re-evaluation %s" % (coq_lock_ok, py_lockset_ok and py_gran_ok and py_iface_ok))
     if re.search(r"^Error|\bError:", getattr(ctx, "coq_log", ""), re.M) and not any(b.startswith("theorem") for b in ctx.broken):
         ctx.broken.append("coq build error (see log)")
-    ctx.log("lock table: %d accesses, lockset %s, granularity %s%s" % (len(rows), "ok" if py_lockset_ok else "VIOLATED",
-                                                                        "ok" if py_gran_ok else "VIOLATED",
+    ctx.log("lock table: %d accesses, lockset %s, granularity %s, member list %s%s" % (len(rows), "ok" if py_lockset_ok else "VIOLATED",
+                                                                        "ok" if py_gran_ok else "VIOLATED", "closed" if py_iface_ok else "CHANGED",
                                                                         "".join("\n    " + f for f in lock_findings)))
 
     # ------------------------------------------------------------------ (3) executables
@@ -209,6 +225,7 @@ def run(ctx):
                           {"findings": lock_findings, "lock_table": table}, found_input=False)
         return
 
+    ctx.log("model and harnesses built")
     # ------------------------------------------------------ (4) sequential differential
     r = ctx.rng("seq")
     base = []
@@ -219,6 +236,9 @@ def run(ctx):
         else:
             v0, ops = gen_V(r, 40)
             base.append(("V", v0, ops))
+    for n_ in (255, 256, 257, 32768, 65535, 65536, 65537, 131072, 131073, 196608):
+        base.append(("V", "0", ["A%d:1" % n_, "u", "g", "u", "g"]))
+        base.append(("V", "7", ["a3", "u", "A%d:10" % n_, "u", "g", "A%d:%d" % (n_, 10 + n_), "u", "r"]))
     exh = list(exhaustive(ctx.pick(5, 6)))
     base += exh
     cases = ["%s %s %s %s" % (k, kind, a, " ".join(ops)) for (k, a, ops) in base for kind in KINDS]
@@ -273,6 +293,7 @@ def run(ctx):
                               % (cases[i], il[:160], ml[:160]))
             reported = True
     ctx.cov["seq_mismatches"] = len(mism)
+    ctx.log("sequential differential done: %d cases, %d mismatches" % (len(cases), len(mism)))
 
     # ---------------------------------------------------------------- (5) stress + acceptance
     # (mode, kind, a, b, spin): stressbuf kind nprod npush spin | stressval kind n spin
@@ -281,16 +302,16 @@ def run(ctx):
     tsan_cfg = [("stressbuf", "pod", 1, big, 0), ("stressbuf", "pod", 2, big, 0), ("stressbuf", "str", 3, big // 2, 0),
                 ("stressbuf", "vec", 4, big // 2, 0), ("stressbuf", "pod", 8, big // 2, 0), ("stressbuf", "str", 8, big // 4, 40),
                 ("stressbuf", "pod", 5, big // 4, 200),
-                ("stressval", "pod", big * 2, 0, 0), ("stressval", "str", big, 0, 0), ("stressval", "vec", big, 0, 30),
+                ("stressval", "pod", big, 0, 0), ("stressval", "str", big, 0, 0), ("stressval", "vec", big, 0, 30),
                 ("stressval", "pod", big, 0, 150)]
     asan_cfg = [("stressbuf", "str", 4, big, 0), ("stressbuf", "vec", 8, big // 2, 0), ("stressbuf", "pod", 2, big, 10),
-                ("stressval", "str", big * 2, 0, 0), ("stressval", "vec", big, 0, 20)]
+                ("stressval", "str", big, 0, 0), ("stressval", "vec", big, 0, 20)]
     if not q:
         tsan_cfg += [("stressbuf", "pod", n, 100000, 0) for n in (3, 4, 6, 7)] + [("stressbuf", "vec", 8, 100000, 0),
                                                                                    ("stressbuf", "str", 6, 100000, 15)]
         asan_cfg += [("stressbuf", "str", 8, 100000, 0), ("stressbuf", "vec", 5, 100000, 5)]
     # quiescent-observation runs: stressobs kind nprod bursts burstlen
-    nb = 3000 if q else 20000
+    nb = 1000 if q else 20000
     tsan_cfg += [("stressobs", "pod", 4, nb, 4), ("stressobs", "str", 2, nb, 6), ("stressobs", "pod", 8, nb // 2, 2)]
     asan_cfg += [("stressobs", "vec", 3, nb, 3)]
     # targeted search for a concrete failing history when the lock table shows a member of the class touched outside the mutex
@@ -302,6 +323,16 @@ def run(ctx):
     if tv_suspect:
         tsan_cfg += [("stressval", k, big * 2, 0, sp) for k, sp in (("pod", 5), ("str", 0), ("pod", 60))]
         asan_cfg += [("stressval", k, big * 4, 0, sp) for k, sp in (("pod", 0), ("pod", 25))]
+    # counter / size boundaries: backlog of N elements at one consume() (sequential, exact; and piled up by real producer threads
+    # while the consumer sleeps), N assignments between two update() calls
+    bnd = [255, 256, 257, 32767, 32768, 32769, 65535, 65536, 65537, 131071, 131072, 131073]
+    asan_cfg += [("seqbig", "pod", np_, n_, 0) for np_ in (1, 3) for n_ in bnd]
+    asan_cfg += [("seqbig", "str", 3, 65537, 0), ("seqbig", "vec", 1, 65537, 0), ("seqbig", "str", 1, 131073, 0), ("seqbig", "vec", 3, 32769, 0)]
+    tsan_cfg += [("stressobs", "pod", 3, 4, 21846), ("stressobs", "pod", 1, 4, 65537), ("stressobs", "pod", 2, 3, 65536), ("stressvalburst", "pod", 0, 0, 0)]
+    asan_cfg += [("stressobs", "str", 2, 3, 32769), ("stressvalburst", "str", 0, 0, 0)]
+    if not q:
+        tsan_cfg += [("stressobs", "vec", 3, 6, 43691), ("stressvalburst", "vec", 0, 0, 0)]
+    ctx.cov["boundary_sizes"] = bnd
     ctx.cov["targeted_search"] = {"TransactionalBuffer": tb_suspect, "TransactionalValue": tv_suspect}
     jobs = [("tsan", h_tsan) + c for c in tsan_cfg] + [("asan", h_asan) + c for c in asan_cfg]
     tdir = os.path.join(ctx.build, "traces")
@@ -315,40 +346,55 @@ def run(ctx):
             os.remove(tp)
         except OSError:
             pass
-        args = [mode, kind, str(a)] + ([str(b)] if mode != "stressval" else []) + [str(sp), tp]
+        def mkargs(a, b):
+            if mode in ("stressbuf", "stressobs"):
+                return [mode, kind, str(a), str(b), str(sp), tp]
+            if mode == "stressval":
+                return [mode, kind, str(a), str(sp), tp]
+            if mode == "seqbig":
+                return [mode, kind, str(a), str(b), tp]
+            return [mode, kind, tp]                      # stressvalburst
+        args = mkargs(a, b)
+        t_start = time.time()
         tmo = ctx.pick(150, 900)
         rc, out, err = ctx.run_exe(exe, args, timeout=tmo)
         if rc == 124:
-            # timed out (a loaded machine, or a hang): once more, a quarter of the size, three times the time
+            # timed out (a loaded machine, or a hang): once more, a quarter of the size (stress modes), three times the time
             if mode == "stressval":
                 a = max(1000, a // 4)
-            else:
+            elif mode in ("stressbuf", "stressobs") and not (mode == "stressobs" and sp >= 1024):
                 b = max(500, b // 4)
-            args = [mode, kind, str(a)] + ([str(b)] if mode != "stressval" else []) + [str(sp), tp]
+            args = mkargs(a, b)
             name += "-retry"
             rc, out, err = ctx.run_exe(exe, args, timeout=3 * tmo)
         verdict = None
         if os.path.exists(tp):
-            with open(tp) as f:
-                mrc, mout, merr = ctx.run_exe(model, ["traceval" if mode == "stressval" else "tracebuf"], stdin=f.read(), timeout=ctx.pick(450, 1800))
+            # (deep non-tail recursion of the extracted tagN on long programs: lift the stack limit)
+            mrc, mout, merr = ctx.run_exe("/bin/bash", ["-c", 'ulimit -s unlimited 2>/dev/null; exec "$0" "$1" < "$2"', model,
+                                                        "traceval" if mode in ("stressval", "stressvalburst") else "tracebuf", tp],
+                                          timeout=ctx.pick(450, 1800))
             verdict = mout.strip() if mrc == 0 else "model-driver-failed rc=%d %s" % (mrc, merr[-300:])
-        return dict(name=name, san=san, args=args[:-1], cmd="%s %s" % (exe, " ".join(args)), rc=rc, out=out.strip(), err=err, verdict=verdict, trace=tp)
+        return dict(secs=round(time.time() - t_start, 1), name=name, san=san, args=args[:-1], cmd="%s %s" % (exe, " ".join(args)), rc=rc, out=out.strip(), err=err, verdict=verdict, trace=tp)
 
     with ThreadPoolExecutor(max_workers=3) as ex:
         results = list(ex.map(one, jobs))
+    results.sort(key=lambda r_: 0 if r_["args"][0] == "seqbig" else 1)      # report the deterministic, exact runs first
     ctx.count(len(results))
+    ctx.log("stress/boundary runs done: %d" % len(results))
     stress_cov = []
     race_reported = False
     seen_kinds = set()      # at most one report per (kind of failure, container)
     for res_ in results:
         out, rc, verdict = res_["out"], res_["rc"], res_["verdict"]
-        stress_cov.append({"run": res_["name"], "rc": rc, "harness": out[:160], "model": (verdict or "")[:120]})
+        stress_cov.append({"run": res_["name"], "rc": rc, "secs": res_["secs"], "harness": out[:160], "model": (verdict or "")[:120]})
         conf = {"command": res_["cmd"], "sanitizer": res_["san"], "rc": rc,
-                "how_to_read": "stressbuf <payload> <producers> <pushes per producer> <spin>; stressobs <payload> <producers> <bursts> <pushes per burst> (size()/empty() checked while all producers are parked); stressval <payload> <assignments> <spin>"}
+                "how_to_read": "stressbuf <payload> <producers> <pushes per producer> <spin>; stressobs <payload> <producers> <bursts> <pushes per burst> (size()/empty() checked while all producers are parked); stressval <payload> <assignments> <spin>; seqbig <payload> <producers> <N> (single-threaded: N pushes, then size(), empty(), consume(), 5 more pushes, drain); stressvalburst <payload> (bursts of 1,255,256,257,...,65536,...,131073 assignments between two update() calls)"}
         ok_line = out.startswith("OK")
         if ok_line:
             m = re.search(r"nonempty=(\d+).*multiproducer_batches=(\d+)", out)
             m2 = re.search(r"true_updates=(\d+).*quiescent_points=(\d+)", out)
+            if re.match(r"OK (backlog|bursts)=", out):
+                ctx.nontriv("stress " + res_["name"])
             m3 = re.search(r"overlapping_consumes=(\d+) nonempty_at_quiescence=(\d+)", out)
             if m3 and int(m3.group(1)) > 0 and int(m3.group(2)) > 0:
                 ctx.nontriv("stress " + res_["name"])
@@ -367,17 +413,17 @@ def run(ctx):
             ctx.broken.append("stress run %s did not terminate within the time limit, twice (hang, or an overloaded machine)" % res_["name"])
             continue
         if rc != 0:
-            if ("crash", res_["args"][0]) in seen_kinds:
+            if ("crash", "val" if "val" in res_["args"][0] else "buf") in seen_kinds:
                 continue
-            seen_kinds.add(("crash", res_["args"][0]))
+            seen_kinds.add(("crash", "val" if "val" in res_["args"][0] else "buf"))
             conf.update({"stderr_tail": res_["err"][-3000:], "stdout": out[-500:], "required": "no crash, no sanitizer report"})
             ctx.violation("stress run crashed / sanitizer report (rc=%d): %s" % (rc, " ".join(res_["args"])), conf)
             continue
         fails_ = [l for l in out.splitlines() if l.startswith("FAIL")]
         if fails_:
-            if ("history", res_["args"][0]) in seen_kinds:
+            if ("history", "val" if "val" in res_["args"][0] else "buf") in seen_kinds:
                 continue
-            seen_kinds.add(("history", res_["args"][0]))
+            seen_kinds.add(("history", "val" if "val" in res_["args"][0] else "buf"))
             conf.update({"observed": fails_, "model_acceptance": verdict, "history": res_["trace"],
                          "required": "every element in exactly one batch, once, in its producer's order; size()/empty() consistent; "
                                      "values seen in assignment order, update()==true iff newer, last value obtained once the producer is idle"})
